@@ -308,7 +308,8 @@ func runC16(c *eng.Ctx) {
 	// ---- R16.9 the server's own publishes waive the expected-offset check
 	c.Rule("R16.9", "K6")
 	ruleInternalPublishesWaive(c)
-	c.Floor(2)
+	ruleBuiltMessagesStateTheirExpectation(c)
+	c.Floor(5)
 
 	// ---- R16.5
 	c.Rule("R16.5", "K1")
@@ -388,6 +389,10 @@ func runC16(c *eng.Ctx) {
 	// ---- R15.8 (shared) the configuration keys this property's switches hang on reach their fields
 	ruleConfigWiring(c, "R15.8")
 
+	// ---- R16.8 (extension) replicated config → stream object: the settings of a created stream are the logged ones
+	c.Rule("R16.8", "K6")
+	ruleCreatedStreamUsesLoggedConfig(c)
+
 	c.Rule("R14.9", "K1")
 	ruleRawPayloadWaivesExpectedOffset(c)
 
@@ -437,6 +442,62 @@ func ruleInternalPublishesWaive(c *eng.Ctx) {
 	}
 	if n == 0 {
 		c.Unresolved("PublishRequest literals built by the server")
+	}
+}
+
+// ruleBuiltMessagesStateTheirExpectation (R16.9 extension): every publish message (liftbridge-api Message) the server
+// builds for a request says what it expects of the offset — the request's ExpectedOffset where the request has one, the
+// waiver -1 where it has none (PublishToSubject). The zero value is a claim ("must land at offset 0"), not an absence.
+func ruleBuiltMessagesStateTheirExpectation(c *eng.Ctx) {
+	p := c.P
+	n := 0
+	for _, fn := range p.Funcs {
+		if fn.Pkg == nil || !c.P.IsModuleFunc(fn) {
+			continue
+		}
+		eng.Instrs(fn, func(in ssa.Instruction) {
+			al, ok := in.(*ssa.Alloc)
+			if !ok || al.Referrers() == nil {
+				return
+			}
+			pt, ok := al.Type().(*types.Pointer)
+			if !ok {
+				return
+			}
+			nt, ok := pt.Elem().(*types.Named)
+			if !ok || nt.Obj().Name() != "Message" || nt.Obj().Pkg() == nil || !strings.Contains(nt.Obj().Pkg().Path(), "liftbridge-api") {
+				return
+			}
+			// only messages that are sent: handed to the publish helper or marshalled as a publish envelope
+			sent := false
+			for _, r := range *al.Referrers() {
+				if ci, isCall := r.(ssa.CallInstruction); isCall && eng.RefIn(eng.CalleeRef(ci.Common()), "server.apiServer.publish", "server/protocol.MarshalPublish") {
+					sent = true
+				}
+			}
+			if !sent {
+				return
+			}
+			n++
+			stated, what := false, "never assigned"
+			for _, r := range *al.Referrers() {
+				if fa, isFA := r.(*ssa.FieldAddr); isFA && eng.FieldNameOf(fa) == "Offset" && fa.Referrers() != nil {
+					for _, rr := range *fa.Referrers() {
+						if st, isSt := rr.(*ssa.Store); isSt {
+							if eng.IntConst(-1)(st.Val) || eng.LoadNamed("ExpectedOffset", nil)(st.Val) {
+								stated = true
+							} else {
+								what = "set from " + eng.Describe(st.Val)
+							}
+						}
+					}
+				}
+			}
+			c.Check(stated, "publish message built in "+ir.FuncKey(ir.Outermost(fn))+" states its expected offset", c.Pos(al), "Offset: the request's ExpectedOffset, or -1 where the request has none", "the message is published with Offset "+what+": the partition leader reads 0 as `must land at offset 0`, so on a stream with optimistic concurrency control a publish that cannot state an expectation is refused whenever the log is not empty (and silently treated as a conditional publish when it is)")
+		})
+	}
+	if n < 3 {
+		c.Unresolved("the publish messages built in api.go (Publish, PublishAsync, PublishToSubject)")
 	}
 }
 
